@@ -1,2 +1,48 @@
-(* C02 -- placeholder: component theorems are being built *)
-From Verif Require Import Base.GoInt.
+(* C02 (partial, proof level): json.Unmarshal accepts, rejects and decodes like encoding/json -- the scalar core.
+   The reflection-driven decoder as a whole is decided by differential execution only; proved here, for EVERY
+   input, are the scanners and the string / integer decoders that every decoder path ends in. *)
+From Verif Require Import Base.GoInt Json.Spec Json.FlagsSpec Json.FlagsIntProofs Json.FlagsKindProofs
+  Json.StrSpec Json.NumSpec Json.StrSpecProofs Json.StrDecProofs Json.StrLinkProofs Json.NumProofs.
+
+(* decoder.parseUint / parseInt (json/parse.go, machine-translated): the exact value of every (signed) digit string
+   followed by any terminator, overflow exactly outside uint64 / int64 (proved for C14) *)
+Theorem c02_parse_uint_exact : parse_uint_exact_statement.
+Proof. exact FlagsIntProofs.parse_uint_exact. Qed.
+Theorem c02_parse_int_exact : parse_int_exact_statement.
+Proof. exact FlagsIntProofs.parse_int_exact. Qed.
+
+(* decodeInt, decodeInt8/16/32/64, decodeUint, decodeUint8/16/32/64, decodeUintptr (json/decode.go; HAND model
+   Json/NumModel.v decode_int around the translated parseInt / parseUint, tied by the s.int.dec cases): the value when
+   it is in the range of the Go type, an error otherwise (a minus sign is an error for unsigned types) *)
+Theorem c02_decode_int_exact : decode_int_statement.
+Proof. exact NumProofs.decode_int_exact. Qed.
+
+(* decoder.parseNumber (machine-translated) consumes every valid number literal and classifies it Int / Uint / Float
+   (proved for C14) *)
+Theorem c02_parse_number_kind : parse_number_kind_statement.
+Proof. exact FlagsKindProofs.parse_number_kind. Qed.
+
+(* about the specification itself: the standard unquoting (transcription of encoding/json, tied by the s.unq cases)
+   accepts exactly the string literals of the RFC 8259 grammar and leaves the same rest *)
+Theorem c02_unquote_grammar : unquote_grammar_statement.
+Proof. exact StrSpecProofs.unquote_grammar. Qed.
+
+(* decoder.parseStringUnquote (json/parse.go), MACHINE-TRANSLATED on every run (Generated/JsonStringGen.v, over the
+   translated parseString / parseUnicode / parseUintHex; appendRune and appendCoerceInvalidUTF8 are hand models in
+   Json/StrExt.v over the models of unicode/utf8 and unicode/utf16): for every input and every sound flags word it
+   fails exactly when the input does not start with a string literal, and otherwise returns the standard unquoting
+   (escapes, surrogate pairs, lone surrogates and ill-formed UTF-8 as U+FFFD) and the rest of the input *)
+Theorem c02_parse_string_unquote : parse_string_unquote_statement.
+Proof. exact StrDecProofs.parse_string_unquote_spec. Qed.
+
+(* json.Unmarshal into a string (json.go Parse/Unmarshal and decode.go decodeString: hand-written glue in
+   Json/StrModel.v around the translated internalParseFlags, skipSpaces, hasNullPrefix, parseStringUnquote; tied by the
+   s.unq cases) equals the standard behaviour on every input: white space, null, literal, trailing bytes *)
+Theorem c02_unmarshal_string : unmarshal_string_statement.
+Proof. exact StrDecProofs.unmarshal_string_spec. Qed.
+
+(* the links with C01: decoding what the encoder wrote *)
+Theorem c02_string_round_trip : string_round_trip_statement.
+Proof. exact StrLinkProofs.string_round_trip. Qed.
+Theorem c02_int_round_trip : int_round_trip_statement.
+Proof. exact NumProofs.int_round_trip. Qed.
